@@ -332,7 +332,12 @@ def build(tier):
     """-> (recs, meta, probes, pairs)."""
     units = list(model.LIB) + gen_units()
     if tier == "quick":
-        pairs = [(a, b) for i, a in enumerate(units) for j, b in enumerate(units) if (i * 7 + j) % 5 == 0 or a.name in ("hertz", "seconds", "meters", "feet") or b.name in ("hertz", "seconds", "Milli<seconds>")]
+        pairs = [(a, b) for i, a in enumerate(units) for j, b in enumerate(units) if (i * 7 + j) % 5 == 0 or a.name in ("hertz", "seconds", "meters", "feet") or b.name in ("hertz", "seconds", "Milli<seconds>")
+                 # every pair that must collapse (same dimension and magnitude -- including pairs that differ only in
+                 # their origin, which is a QuantityPoint notion and must play no role here), and every same-dimension
+                 # pair in which a unit carries an origin
+                 or model.same_quantity(a, b)
+                 or (model.dim_key(a.dim) == model.dim_key(b.dim) and (a.origin != 0 or b.origin != 0))]
     else:
         pairs = list(itertools.product(units, repeat=2))
     pairs = [(a, b) for a, b in pairs if not model.ordering_conflict([a, b])]
